@@ -6,6 +6,15 @@ from ..core import AnalysisError, norm
 from .common import (effects, paths_of, check_writers, arg_by_name, named_call_sites, call_sites_of)
 
 
+def _const_text(repo, f, e):
+    """the text of a keyword value, with a module-level constant replaced by its value"""
+    if isinstance(e, (ast.Name, ast.Attribute)):
+        r_ = repo.resolve_expr_static(f.module, e)
+        if r_ and r_[0] == 'var' and isinstance(r_[1], ast.Constant):
+            return norm(r_[1])
+    return norm(e)
+
+
 def run(ctx):
     repo = ctx.repo
     cg = repo.callgraph()
@@ -47,7 +56,10 @@ def run(ctx):
                   'mode %s is wired as %s' % (mode, [e.text[:100] for e in calls]))
         lp = [e for e in p.events if e.calls('protocol.load_all')]
         ctx.check(len(lp) == 1 and p.events.index(lp[0]) < p.events.index(calls[0]) if calls else False, 'C13.1', 'protocols-loaded-first:%s' % mode, f_main.loc(), 'protocol descriptions are loaded before input is processed')
-    streams = {'main.piped_input_main': 'sys.stdin', 'main.file_input_main': 'open(file_path', 'runner.run_program': 'os.fdopen(os.pipe()[0]'}
+    # (os.fdopen(fd, ..) is open(fd, ..): the standard library defines the former as a call of the latter)
+    streams = {'main.piped_input_main': ('sys.stdin', 'open(sys.stdin.fileno()', 'os.fdopen(sys.stdin.fileno()'), 'main.file_input_main': ('open(file_path',),
+               'runner.run_program': ('os.fdopen(os.pipe()[0]', 'open(os.pipe()[0]')}
+    configs = {}
     for q, stream in streams.items():
         f = repo.func(q)
         n = 0
@@ -57,37 +69,38 @@ def run(ctx):
             calls = [e for e in p.events if e.calls('parse.into_sink')]
             n += 1
             a0 = calls[0].argtext(0) or '' if calls else ''
-            ok = len(calls) == 1 and (a0.startswith(stream) or (stream == 'sys.stdin' and a0.startswith('open(sys.stdin.fileno()'))) and calls[0].argtext(1) in ('output',) and calls[0].argtext(2) == 'connection_id_sink'
+            ok = len(calls) == 1 and a0.startswith(stream) and calls[0].argtext(1) in ('output',) and calls[0].argtext(2) == 'connection_id_sink'
             ctx.check(ok, 'C13.1', 'into_sink:%s' % f.name, f.loc(calls[0].node if calls else None), '%s parses its stream exactly once into the given output and sink' % f.name,
                       '%s calls %s' % (f.name, [e.text[:120] for e in calls]))
+            # the same bytes must decode to the same text in all three modes: encoding / errors / newline of the three streams agree
+            # (read from what the stream argument holds on the path, through locals, `with .. as` and freshly extracted helpers)
+            for e in calls[:1]:
+                src = e.args[0] if e.args else None
+                cfg = {'encoding': 'locale default', 'errors': 'strict', 'newline': 'default'}
+                if isinstance(src, ast.Call):
+                    for k in src.keywords:
+                        if k.arg in cfg:
+                            cfg[k.arg] = _const_text(repo, f, k.value)
+                elif norm(src) == 'sys.stdin':
+                    cfg['errors'] = 'interpreter default'
+                configs.setdefault(f.qual, set()).add(tuple(sorted(cfg.items())))
         ctx.floor('C13.1', n, 1, 'normal path of ' + q)
-    callers = call_sites_of(repo, lambda t: t.qual.endswith('parse.into_sink'))
-    # the same bytes must decode to the same text in all three modes: encoding / errors / newline of the three streams agree
-    configs = {}
-    for f_, s_ in callers:
-        a = s_.node.args[0]
-        src = a
-        if isinstance(a, ast.Name):
-            for n in f_.body_nodes():
-                if isinstance(n, ast.Assign) and any(isinstance(t, ast.Name) and t.id == a.id for t in n.targets):
-                    src = n.value
-                if isinstance(n, ast.With):
-                    for it in n.items:
-                        if it.optional_vars is not None and norm(it.optional_vars) == a.id:
-                            src = it.context_expr
-        cfg = {'encoding': 'locale default', 'errors': 'strict', 'newline': 'default'}
-        if isinstance(src, ast.Call):
-            for k in src.keywords:
-                if k.arg in cfg:
-                    cfg[k.arg] = norm(k.value)
-        elif norm(src) == 'sys.stdin':
-            cfg['errors'] = 'interpreter default'
-        configs[f_.qual] = cfg
-    vals = {tuple(sorted(c.items())) for c in configs.values()}
+    vals = set()
+    for c in configs.values():
+        vals |= c
     ctx.check(len(vals) == 1, 'C13.1', 'streams:same-decoding', repo.func('parse.into_sink').loc(),
               'file, pipe and run mode decode their input with the same encoding / error handler / newline mode (%s)' % dict(next(iter(vals))) if vals else '',
-              'the three input modes decode the same bytes differently: %s' % configs)
-    ctx.check(len(callers) == 3, 'C13.1', 'into_sink:three-callers', repo.func('parse.into_sink').loc(), 'exactly the three log modes enter the parser', 'into_sink has %d callers' % len(callers))
+              'the three input modes decode the same bytes differently: %s' % {k: [dict(x) for x in v] for k, v in configs.items()})
+    # exactly the three log modes enter the parser (a freshly extracted helper stands for its callers)
+    from .common import effective_funcs
+    callers = call_sites_of(repo, lambda t: t.qual.endswith('parse.into_sink'))
+    eff = []
+    for f_, s_ in callers:
+        for g in effective_funcs(repo, f_):
+            if g not in eff:
+                eff.append(g)
+    ctx.check(sorted(g.qual for g in eff) == sorted(repo.func(q).qual for q in streams), 'C13.1', 'into_sink:three-callers', repo.func('parse.into_sink').loc(),
+              'exactly the three log modes enter the parser', 'into_sink is entered from %s' % sorted(g.short for g in eff))
     # ---- C13.2 -------------------------------------------------------------------------------------------
     pm = repo.modules['backends.libwayland_debug_output.parse']
     bad = []
@@ -161,7 +174,7 @@ def run(ctx):
         ctx.check(ok, 'C13.4', 'run_program:start-parse-join', f_rp.loc(), 'the child thread is started before parsing and joined after the parser saw end of input',
                   'run_program ordering is start=%s parse=%s join=%s' % (start, parse, join))
         if ok:
-            ctx.check([norm(a) for a in ev[sp[0]].args] == ['args', 'os.pipe()[1]'] and ev[parse[0]].argtext(0).startswith("os.fdopen(os.pipe()[0]"), 'C13.3', 'run_program:pipe-ends', f_rp.loc(),
+            ctx.check([norm(a) for a in ev[sp[0]].args] == ['args', 'os.pipe()[1]'] and ev[parse[0]].argtext(0).startswith(("os.fdopen(os.pipe()[0]", "open(os.pipe()[0]")), 'C13.3', 'run_program:pipe-ends', f_rp.loc(),
                       'the child writes stderr into the pipe end whose other end is parsed', 'pipe ends: child gets %s, parser gets %s' % ([norm(a) for a in ev[sp[0]].args], ev[parse[0]].argtext(0)))
             th = [e for e in ev if e.kind == 'call' and e.ftext == 'threading.Thread']
             ctx.check(len(th) == 1 and norm(th[0].kwargs.get('target')) == "_Subprocess(args, os.pipe()[1]).run", 'C13.3', 'run_program:thread-runs-child', f_rp.loc(), 'the thread runs the subprocess object\'s run()')
